@@ -9,6 +9,10 @@ import (
 // Engine is the compiled query. It is able to evaluate the entire query.
 type Engine struct {
 	Statements []*Statement
+
+	// variableDepth is how many variables are being evaluated right now. See
+	// VariableExpr.
+	variableDepth int
 }
 
 // Evaluate executes all of the expressions and returns the final result.
